@@ -367,7 +367,7 @@ SerOk(t, v) ==
     [] t.c = "enum"  -> TRUE                                                    \* :809-811 never raises
     [] t.c = "literal" -> LiteralHas(t.p, v)
     [] t.c = "union" -> \E i \in 1..Len(t.p) : SerOk(t.p[i], v)
-    [] t.c = "list"  -> v.k = "list" /\ \A i \in 1..Len(v.v) : SerOk(t.p[1], v.v[i])
+    [] t.c = "list"  -> v.k \in SeqKinds /\ \A i \in 1..Len(v.v) : SerOk(t.p[1], v.v[i])      \* :888-889 any iterable but a str / mapping is listified
     [] t.c = "tuple" -> v.k \in SeqKinds /\ Len(v.v) = Len(t.p) /\ \A i \in 1..Len(v.v) : SerOk(t.p[i], v.v[i])
     [] t.c \in {"tuplee", "set"} -> v.k \in SeqKinds /\ \A i \in 1..Len(v.v) : SerOk(t.p[1], v.v[i])
     [] t.c = "dict"  -> v.k = "dict" /\ \A i \in 1..Len(v.v) : SerOk(t.p[2], v.v[i][2])
